@@ -194,6 +194,12 @@ func defaultValueForTypeRec(schemas ast.Schemas, typeDef ast.Type, importModule 
 					return
 				}
 
+				// constants are assigned by the constructor itself, they
+				// are not part of its arguments.
+				if field.Type.IsConcreteScalar() || field.Type.IsConstantRef() {
+					return
+				}
+
 				value := v
 				if field.Type.IsRef() {
 					var fieldOverrides *orderedmap.Map[string, any]
